@@ -660,7 +660,7 @@ class G:
         if k < 0.52:
             return "USE db", N("ASTUseStatement", schema_name="db")
         if k < 0.62:
-            kv = self.pick([("hive.exec.dynamic.partition", "true"), ("mapreduce.job.queue-name", "root.q"), ("a", "b")])
+            kv = self.pick([("hive.vectorized.execution.enabled", "yes"), ("mapreduce.job.queue-name", "root.q1"), ("a", "b")])   # no keyword-like words: the key is data
             return "SET %s = %s" % kv, N("ASTSetStatement", config=N("ASTConfigStringExpression", name=kv[0], value=kv[1]))
         if k < 0.78:
             self.hive = True
